@@ -23,7 +23,12 @@ MANIFEST_INFO = {
 
 # extra kinds: custom exception classes and subclasses of the signal exceptions
 CUSTOM_FRONT, CUSTOM_MID, SKIP_SUB, FAIL_SUB, XFAIL_SUB = "custom_front", "custom_mid", "skip_sub", "fail_sub", "xfail_sub"
-KINDS = pg.ALL_KINDS + (CUSTOM_FRONT, CUSTOM_MID, SKIP_SUB, FAIL_SUB, XFAIL_SUB, "multi_fail_skip", "fx_skip_bad_cleanup")
+CUSTOM_BASE = "custom_base"  # derives from BaseException (as asyncio.CancelledError or pytest's outcome exceptions do), own handler
+KINDS = pg.ALL_KINDS + (CUSTOM_FRONT, CUSTOM_MID, SKIP_SUB, FAIL_SUB, XFAIL_SUB, "multi_fail_skip", "fx_skip_bad_cleanup", CUSTOM_BASE)
+
+
+class CustomBase(BaseException):
+    pass
 
 
 class CustomFront(Exception):
@@ -62,6 +67,7 @@ MAPPED = {
     XFAIL_SUB: "addExpectedFailure",
     CUSTOM_FRONT: "handler:front",
     CUSTOM_MID: "handler:mid",
+    CUSTOM_BASE: "handler:base",
 }
 UNSUCCESSFUL = ("addError", "addFailure", "addUnexpectedSuccess")
 
@@ -104,10 +110,12 @@ def perform(case, ctx, stage, kind):
         ctx.xlog.append(("raise", stage, kind))
         case.useFixture(_SkipThenBoomFixture(case, marker))
         raise AssertionError("useFixture returned")
-    if kind in (CUSTOM_FRONT, CUSTOM_MID, SKIP_SUB, FAIL_SUB, XFAIL_SUB):
+    if kind in (CUSTOM_FRONT, CUSTOM_MID, SKIP_SUB, FAIL_SUB, XFAIL_SUB, CUSTOM_BASE):
         marker = "%s!%s" % (stage, kind)
         ctx.raised.append((stage, kind, marker))
         ctx.xlog.append(("raise", stage, kind))
+        if kind == CUSTOM_BASE:
+            raise CustomBase(marker)
         if kind == CUSTOM_FRONT:
             raise CustomFront(marker)
         if kind == CUSTOM_MID:
@@ -124,7 +132,8 @@ def perform(case, ctx, stage, kind):
     return _orig_perform(case, ctx, stage, kind)
 
 
-for _k in (CUSTOM_FRONT, CUSTOM_MID, SKIP_SUB, FAIL_SUB, XFAIL_SUB):
+pg.NON_EXCEPTION_KINDS += (CUSTOM_BASE,)
+for _k in (CUSTOM_FRONT, CUSTOM_MID, SKIP_SUB, FAIL_SUB, XFAIL_SUB, CUSTOM_BASE):
     pg.FLATTEN[_k] = (_k,)
 pg.FLATTEN[MULTI_FAIL_SKIP] = (pg.FAIL, pg.SKIP)
 pg.FLATTEN[FX_SKIP_BAD_CLEANUP] = (pg.SKIP, pg.ERROR, pg.ERROR)  # skip, the cleanup's error, fixtures' SetupError
@@ -156,7 +165,12 @@ def execute(config, flavour, chooser):
 
         # user handlers: one inserted at the front, one just before the catch-all -
         # either before run() or by the running test itself (from setUp, before the up-call)
+        def h_base(c, result, e):
+            handler_calls.append("handler:base")
+            result.addSkip(c, details={})
+
         def insert():
+            case.exception_handlers.insert(0, (CustomBase, h_base))
             case.exception_handlers.insert(0, (CustomFront, h_front))
             case.exception_handlers.insert(len(case.exception_handlers) - 1, (CustomMid, h_mid))
 
@@ -203,7 +217,7 @@ def check_execution(config, flavour, ctx, log, how, result, handler_calls):
             problems.append(("success-unsound", "outcome addSuccess although user code raised %r" % (eff,)))
     catchall = ("front_catchall",) in config.actions.get("setUp.pre", ())
     if catchall:
-        if len(eff) == 1 and eff[0] not in (pg.KBI, pg.SYSEXIT):
+        if len(eff) == 1 and eff[0] not in (pg.KBI, pg.SYSEXIT, CUSTOM_BASE):
             if handler_calls != ["handler:all"]:
                 problems.append(("user-handler", "a catch-all (Exception, handler) was inserted at the front, yet for the sole exception %s the handlers called were %r" % (eff[0], handler_calls)))
         return problems, outcome
@@ -217,7 +231,7 @@ def check_execution(config, flavour, ctx, log, how, result, handler_calls):
                 problems.append(("user-handler", "user handlers %r called for %s" % (handler_calls, eff[0])))
             if outcome != want:
                 problems.append(("sole-mapping", "sole exception %s reported as %s, its type maps to %s" % (eff[0], outcome, want)))
-    if any(k in BAD for k in eff) and not any(k in (CUSTOM_FRONT, CUSTOM_MID) for k in eff):
+    if any(k in BAD for k in eff) and not any(k in (CUSTOM_FRONT, CUSTOM_MID, CUSTOM_BASE) for k in eff):
         # (what a user-inserted handler reports for its own exception class is the user's business)
         if outcome not in UNSUCCESSFUL:
             problems.append(("masked", "user code raised %r (a failure or error among them) but the outcome is %s" % (eff, outcome)))
